@@ -202,8 +202,11 @@ CLAIMS['C15'] = dict(
           "C15_exactly_once (constructions = drops + hand-overs per element). Differential run: the real "
           "<[T; N]>::deserialize_reader with a heap-owning instrumented element for all N in 0..=33 and 64, every "
           "failing position, error return and panic; the ledger is compared event for event with the model; oracle: "
-          "every constructed element released exactly once. Partial: reading uninitialised memory is undefined "
-          "behaviour a ledger cannot see; UB-freedom of the unsafe block itself is not proved."),
+          "every constructed element released exactly once. The same decoder additionally runs under Miri "
+          "(/verif/miri: N in {0,1,2,3,5,8,17}, every failing position, error and panic mode, zero-sized elements "
+          "with drop glue, truncated input; undefined behaviour or a leak is a violation with the execution as "
+          "replay). Partial: Miri explores the sampled executions, it does not prove UB-freedom of the unsafe "
+          "block for all N; the theorem covers the bookkeeping for all N."),
     technique="Lean 4 proof (loop invariant over a state machine, all N and plans) + event-for-event differential check with an instrumented element type",
     design_ref="§5 C15")
 
